@@ -68,6 +68,8 @@ def gen_desc(verif_seed: int, i: int, tier: str = "quick") -> dict:
             cfg["phases"] = cfg["phases"] + ["stateful"]
             cfg["shim"] = True
         sched = {"kind": "targeted", "seed": rng.getrandbits(32), "p_line": rng.choice([0.01, 0.05]), "p_switch": 0.1, "p_tick": rng.choice([0.0, 0.02])}
+    if not fault_free:
+        fl = fl + gen.gen_stalls(rs, udesc, cfg, p=0.25)
     if cfg["entry"] == "cli":
         cfg["argv"] = cli_argv(cfg, udesc)
     return {
@@ -173,6 +175,7 @@ class C11Profile(Profile):
         W._register_sim_marker()
         faults.install_ctrl_c(ctx)
         faults.install_internal_fault(ctx)
+        faults.install_stalls(ctx)
         stop = next((f for f in ctx.desc.get("faults", []) if f["kind"].startswith("consumer_") and f.get("after_type")), None)
         if stop is not None and ctx.sched.policy is not None:
             # aim the schedule: the instant the event the stop is keyed on gets *published*, hand the baton to the
